@@ -3,6 +3,7 @@ package bftworld
 import (
 	"encoding/hex"
 	"fmt"
+	"sort"
 	"strconv"
 	"strings"
 
@@ -366,6 +367,16 @@ func (w *World) EvidenceViols(cfgName string, path []int) (viols []mc.Viol, pair
 				kind = "same-view"
 			}
 			try(a, c, kind)
+			if kind == "same-view" && len(a.Signature.Bitmap) == len(c.Signature.Bitmap) {
+				// B's bitmap padded with A's signers (signature bytes unchanged): must be refused, also right after the
+				// genuine pair was processed by the same node
+				p := cp(c)
+				p.Signature.Bitmap = append([]byte{}, c.Signature.Bitmap...)
+				for x := range p.Signature.Bitmap {
+					p.Signature.Bitmap[x] |= a.Signature.Bitmap[x]
+				}
+				try(a, p, "padded-bitmap")
+			}
 			// re-target A's header to B's (the signature no longer matches and must be refused)
 			if !a.Header.Equals(c.Header) {
 				r := cp(a)
@@ -386,3 +397,98 @@ func qcStr(q *lib.QuorumCertificate) string {
 }
 
 var _ = crypto.Hash
+
+// ---------------------------------------------------------------------------------------
+// C14a, committee sizes the BFS worlds do not have: attribution of double signers by position.
+
+// AttributionViols builds, for a committee of n equal validators and every set S of one or two positions,
+// genuine double-sign evidence in which exactly the validators of S signed both payloads of one view (vote A:
+// payload X signed by everybody; vote B: payload Y signed by S only) and asks a real node to process it; the
+// answer must name exactly S. It then re-sends the same two payloads with B's bitmap padded to everybody
+// (signature bytes unchanged: must be refused, and must not implicate anybody even though the genuine pair was
+// processed a moment ago on the same node).
+func AttributionViols(n int) (viols []mc.Viol, cases int) {
+	powers := make([]uint64, n)
+	for i := range powers {
+		powers[i] = 1
+	}
+	w := New(Config{Powers: powers, Byz: -1, BaseRH: 2, Timeouts: [7]int{10, 10, 10, 10, 10, 10, 10}})
+	b := w.Nodes[0].BFT
+	vs := w.ValSet()
+	view := &lib.View{NetworkId: NetworkID, ChainId: ChainID, Height: ChainHeight, RootHeight: 2, Round: 0, Phase: lib.Phase_PROPOSE_VOTE}
+	mk := func(salt int, signers []int) *lib.QuorumCertificate {
+		blk, res := MakeBlock(0, 2, 0, salt)
+		h, _ := new(lib.Block).BytesToBlockHash(blk)
+		qc := &lib.QuorumCertificate{Header: view.Copy(), BlockHash: h, ResultsHash: res.Hash(), ProposerKey: w.Nodes[0].Key.PublicKey().Bytes()}
+		mkey := vs.MultiKey.Copy()
+		for _, i := range signers {
+			m := &bft.Message{Qc: &lib.QuorumCertificate{Header: view.Copy(), BlockHash: h, ResultsHash: res.Hash(), ProposerKey: qc.ProposerKey}}
+			if err := m.Sign(w.Nodes[i].Key); err != nil {
+				panic(err)
+			}
+			if err := mkey.AddSigner(m.Signature.Signature, i); err != nil {
+				panic(err)
+			}
+		}
+		sig, err := mkey.AggregateSignatures()
+		if err != nil {
+			panic(err)
+		}
+		qc.Signature = &lib.AggregateSignature{Signature: sig, Bitmap: mkey.Bitmap()}
+		return qc
+	}
+	all := make([]int, n)
+	for i := range all {
+		all[i] = i
+	}
+	full := mk(1, all)
+	process := func(a, c *lib.QuorumCertificate) map[int]bool {
+		w.Nodes[0].ctl.Lock()
+		ds, _ := b.ProcessDSE(&bft.DoubleSignEvidence{VoteA: a, VoteB: c})
+		w.Nodes[0].ctl.Unlock()
+		got := map[int]bool{}
+		for _, d := range ds {
+			got[w.IndexOf(d.Id)] = true
+		}
+		return got
+	}
+	cpq := func(q *lib.QuorumCertificate) *lib.QuorumCertificate {
+		return &lib.QuorumCertificate{Header: q.Header.Copy(), BlockHash: q.BlockHash, ResultsHash: q.ResultsHash, ProposerKey: q.ProposerKey,
+			Signature: &lib.AggregateSignature{Signature: q.Signature.Signature, Bitmap: append([]byte{}, q.Signature.Bitmap...)}}
+	}
+	for i := 0; i < n; i++ {
+		for j := i; j < n; j++ {
+			S := []int{i}
+			if j != i {
+				S = append(S, j)
+			}
+			cases++
+			part := mk(2, S)
+			got := process(cpq(full), cpq(part))
+			want := map[int]bool{}
+			for _, s := range S {
+				want[s] = true
+			}
+			if fmt.Sprint(got) != fmt.Sprint(want) {
+				viols = append(viols, mc.Viol{Sig: "C14:attribution:wrong-double-signers", What: fmt.Sprintf("committee of %d: validators %v signed both payloads of one view, ProcessDSE names %v", n, S, keysOf(got)),
+					Replay: map[string]any{"attribution": n, "signers": S}})
+			}
+			padded := cpq(part)
+			padded.Signature.Bitmap = append([]byte{}, full.Signature.Bitmap...)
+			if got := process(cpq(full), padded); len(got) != 0 {
+				viols = append(viols, mc.Viol{Sig: "C14:attribution:padded-bitmap-accepted", What: fmt.Sprintf("committee of %d: after the genuine evidence against %v, the same payloads with the partial certificate's bitmap padded to everybody (signature unchanged) name %v", n, S, keysOf(got)),
+					Replay: map[string]any{"attribution": n, "signers": S}})
+			}
+		}
+	}
+	return
+}
+
+func keysOf(m map[int]bool) []int {
+	var out []int
+	for k := range m {
+		out = append(out, k)
+	}
+	sort.Ints(out)
+	return out
+}
